@@ -115,3 +115,9 @@ Proof.
   intros HB src p Hd Hp. destruct (HB p Hp) as (dst & Hw & Hr). exists dst. split; [|exact Hr].
   unfold convert_plain. rewrite Hd. exact Hw.
 Qed.
+
+(* non-vacuity of the styled WebVTT -> SubRip theorem (ConvProofs.vtt_to_srt) on an untagged two-cue document *)
+Example ex_vtt_to_srt_hyps :
+  repr_vdoc (vtt_of_plain (ptrunc 1000000 ex_plain)) [] [] /\
+  Forall repr_item (conv_vs (ndoc (vtt_of_plain (ptrunc 1000000 ex_plain)) [] [])).
+Proof. split; [exact ex_plain_vtt_ok | apply repr_itemsb_ok; vm_compute; reflexivity]. Qed.
